@@ -634,6 +634,18 @@ def drive_fmap(case, sh, state):
     _label_forked_children()
     state["phase"] = "pool_enter"
     with FunctorMap(_simple_functor(sh), case["workers"]) as m:
+        pre = None
+        if case.get("create_all_first"):
+            # the caller builds all its result generators first (e.g. to chain them) and consumes them one after another
+            pre = []
+            try:
+                for ci, call in enumerate(case["calls"]):
+                    pre.append(m(make_input(call, ci, sh), call["chunk"]))
+            except Exception as e:
+                rec = {"yields": [], "completed": False, "exception": f"creating the generator of call {len(pre)}: {type(e).__name__}: {e}"}
+                state["calls"].append(rec)
+                pre = None
+                case = dict(case, calls=[])
         for ci, call in enumerate(case["calls"]):
             state["phase"] = "call"
             state["call"] = ci
@@ -641,7 +653,7 @@ def drive_fmap(case, sh, state):
             state["calls"].append(rec)
             sh.log("call_start", call=ci)
             try:
-                for y in m(make_input(call, ci, sh), call["chunk"]):
+                for y in (pre[ci] if pre is not None else m(make_input(call, ci, sh), call["chunk"])):
                     rec["yields"].append(_compact(y, call))
                 rec["completed"] = True
             except instr.InjectedFault:
